@@ -286,7 +286,8 @@ def _expandwordinternal(parserobj, wordtoken, qheredocument, qdoublequotes, quot
                 x = _stringextract(string, sindex[0], "`")
                 if x == -1:
                     raise errors.ParsingError('bad substitution: no closing "`" '
-                                              'in %s' % string)
+                                              'in %s' % string, parserobj.s,
+                                              wordtoken.lexpos + tindex)
                 else:
                     if wordtoken.flags & flags.word.NOCOMSUB:
                         pass
